@@ -80,11 +80,13 @@ NUM_T = sorted(INT_TYPES) + sorted(FLT_TYPES)
 
 
 @st.composite
-def param(draw, i, lang, for_fortran=True):
+def param(draw, i, lang, for_fortran=True, allowed=None):
     n = "a%d" % i
     rows = ["N1", "N1", "N2in", "N2out", "N2inout", "B1", "B1out", "B1inout", "S1in", "S1out", "N3in", "N3inout", "N3out", "S1c"]
     if lang == "c++":
         rows += ["N2ref", "N2refout", "S3in", "S3out", "S3inout", "S3val"]
+    if allowed is not None:
+        rows = [r for r in rows if r in allowed]
     row = draw(st.sampled_from(rows))
     if row == "N1":
         T = draw(st.sampled_from(NUM_T))
@@ -228,11 +230,11 @@ def call_vector(draw, f, for_fortran=True):
 
 
 @st.composite
-def function(draw, lang, fid, name, cls=None, kind="func", max_params=3, for_fortran=True):
+def function(draw, lang, fid, name, cls=None, kind="func", max_params=3, for_fortran=True, allowed=None):
     params = []
     nparam = draw(st.integers(0, max_params))
     for i in range(nparam):
-        params.extend(draw(param(i, lang, for_fortran)))
+        params.extend(draw(param(i, lang, for_fortran, allowed)))
     ret = draw(result(lang, for_fortran)) if kind in ("func", "method", "smethod") else None
     f = dict(name=name, fid=fid, cls=cls, kind=kind, params=params, ret=ret, suffix=None, const=False, calls=[])
     if kind == "method":
@@ -251,7 +253,62 @@ def library(draw, lang=None, nfunc=(4, 10), for_fortran=True, with_class=None):
     for i in range(n):
         lib["funcs"].append(draw(function(lang, fid, "func%d" % fid, for_fortran=for_fortran)))
         fid += 1
+    wc = (lang == "c++") and (draw(st.booleans()) if with_class is None else with_class)
+    if wc:
+        lib["classes"].append(draw(klass(lang, fid, "Cls1", for_fortran)))
     return lib
+
+
+SIMPLE_ROWS = ["N1", "B1", "S1in", "S3in", "N2out", "N2in"]
+
+
+@st.composite
+def klass(draw, lang, fid, name, for_fortran=True):
+    """classes.rst: constructors (overloaded), destructor, const / static methods, functions
+    returning the class by pointer (+owner) and taking it by pointer / reference."""
+    c = dict(name=name, ctors=[], methods=[], statics=[], makers=[], users=[], dtor_fid=None)
+    nct = draw(st.integers(1, 2))
+    explicit = draw(st.booleans())
+    for i in range(nct):
+        f = dict(name=name, fid=fid, cls=name, kind="ctor", params=[], ret=None, const=False,
+                 suffix=("_default" if i == 0 else "_flag") if (explicit and nct > 1) else None, calls=[], overload_index=i, noverload=nct)
+        if i == 1:
+            f["params"] = [P("flag", "N1", "int", "int flag")]
+        f["calls"] = [draw(call_vector(f, for_fortran)) for _ in range(2)]
+        c["ctors"].append(f)
+        fid += 1
+    c["dtor_fid"] = fid
+    fid += 1
+    for i in range(draw(st.integers(1, 3))):
+        f = draw(function(lang, fid, "method%d" % i, cls=name, kind="method", max_params=2, for_fortran=for_fortran,
+                          allowed=SIMPLE_ROWS))
+        c["methods"].append(f)
+        fid += 1
+    if draw(st.booleans()):
+        f = draw(function(lang, fid, "smethod", cls=name, kind="smethod", max_params=2, for_fortran=for_fortran,
+                          allowed=["N1", "B1"]))
+        c["statics"].append(f)
+        fid += 1
+    # Class1 *make(int flag) +owner(caller) ; Class1 *borrow() (library owned)
+    mk = dict(name="make_obj", fid=fid, cls=None, kind="make", params=[P("flag", "N1", "int", "int flag")], ret=None,
+              const=False, suffix=None, calls=[], owned=True, rclass=name)
+    mk["calls"] = [draw(call_vector(mk, for_fortran)) for _ in range(2)]
+    c["makers"].append(mk)
+    fid += 1
+    bw = dict(name="borrow_obj", fid=fid, cls=None, kind="make", params=[], ret=None, const=False, suffix=None,
+              calls=[dict(inputs={}, outputs={})] * 2, owned=False, rclass=name)
+    c["makers"].append(bw)
+    fid += 1
+    us = dict(name="use_obj", fid=fid, cls=None, kind="use", const=False, suffix=None, ret=dict(row="N", T="int", ctype="int", attrs=""),
+              params=[P("obj", "K1ptr", "object", "const %s *obj" % name), P("a1", "N1", "int", "int a1")], calls=[])
+    us["calls"] = [draw(call_vector(us, for_fortran)) for _ in range(2)]
+    c["users"].append(us)
+    fid += 1
+    ur = dict(name="use_ref", fid=fid, cls=None, kind="use", const=False, suffix=None, ret=None,
+              params=[P("a0", "N1", "double", "double a0"), P("obj", "K1ref", "object", "const %s &obj" % name)], calls=[])
+    ur["calls"] = [draw(call_vector(ur, for_fortran)) for _ in range(2)]
+    c["users"].append(ur)
+    return c
 
 
 # ---------------------------------------------------------------------------
@@ -277,11 +334,29 @@ def decl_text(f):
 def to_yaml(lib, options=None):
     import yaml
     decls = []
-    for f in lib["funcs"]:
-        d = {"decl": decl_text(f)}
+
+    def fdecl(f, text=None):
+        d = {"decl": text or decl_text(f)}
         if f.get("suffix"):
             d["format"] = {"function_suffix": f["suffix"]}
-        decls.append(d)
+        return d
+    for f in lib["funcs"]:
+        decls.append(fdecl(f))
+    for c in lib.get("classes", []):
+        inner = []
+        for f in c["ctors"]:
+            inner.append(fdecl(f, "%s(%s)" % (c["name"], ", ".join(p["ctype"] for p in f["params"]))))
+        inner.append({"decl": "~%s()" % c["name"]})
+        for f in c["methods"]:
+            inner.append(fdecl(f))
+        for f in c["statics"]:
+            inner.append(fdecl(f, "static " + decl_text(f)))
+        decls.append({"decl": "class " + c["name"], "declarations": inner})
+        for f in c["makers"]:
+            decls.append(fdecl(f, "%s *%s(%s)%s" % (c["name"], f["name"], ", ".join(p["ctype"] for p in f["params"]),
+                                                      " +owner(caller)" if f["owned"] else " +owner(library)")))
+        for f in c["users"]:
+            decls.append(fdecl(f))
     doc = {"library": lib["name"], "language": lib["language"], "cxx_header": lib["cheader"],
            "options": dict({"wrap_python": False, "wrap_lua": False}, **(options or {})), "declarations": decls}
     return yaml.safe_dump(doc, sort_keys=False, width=1000)
@@ -323,13 +398,17 @@ def atext(T, vals):
 # ---------------------------------------------------------------------------
 # reference model: expected stream
 
-def expected_call(f, call, site, front):
+def expected_call(f, call, site, front, serial_of=None, op=None):
     """Lines the combined stream must contain for one call.  front = 'c' | 'fortran'."""
     out = ["C %d" % site, "E %d" % f["fid"]]
+    if op is not None and op["kind"] == "mcall":
+        out.append("T %d" % serial_of[op["obj"]])          # the right object as 'this'
     ins, outs = call["inputs"], call["outputs"]
     for idx, p in enumerate(f["params"]):
         row, T, nm = p["row"], p["T"], p["name"]
-        if p.get("implied_of"):
+        if row in ("K1ptr", "K1ref"):
+            out.append("A %d o %d" % (idx, serial_of[op["objs"][nm]]))
+        elif p.get("implied_of"):
             out.append("A %d i %d" % (idx, len(ins[p["implied_of"]])))     # implied = size of the named array
         elif p.get("size_for") or row in ("N1", "N2in", "N2inout", "N2ref", "B1", "B1inout", "S1c"):
             out.append("A %d %s" % (idx, vtext(T, ins[nm])))
@@ -368,7 +447,7 @@ def obs_text(T, row, v, front, flen):
 
 
 def call_plan(lib):
-    """Deterministic order of calls: round robin over the functions' call vectors."""
+    """Deterministic order of plain function calls: round robin over the call vectors."""
     plan = []
     k = 0
     while True:
@@ -383,10 +462,86 @@ def call_plan(lib):
     return plan
 
 
+def plan(lib):
+    """Operation list executed by every driver: plain calls, then for each class a scripted
+    life cycle (construct with every constructor, call every method on every object, hand the
+    objects to free functions, obtain owned / borrowed objects, destroy what the caller owns)."""
+    ops = [dict(kind="call", f=f, k=k) for f, k in call_plan(lib)]
+    nobj = 0
+    for c in lib.get("classes", []):
+        objs = []
+        for f in c["ctors"]:
+            for k in range(len(f["calls"])):
+                ops.append(dict(kind="new", f=f, k=k, obj=nobj, cls=c["name"]))
+                objs.append(nobj)
+                nobj += 1
+        for f in c["methods"]:
+            for k in range(len(f["calls"])):
+                ops.append(dict(kind="mcall", f=f, k=k, obj=objs[k % len(objs)], cls=c["name"]))
+        for f in c["statics"]:
+            for k in range(len(f["calls"])):
+                ops.append(dict(kind="call", f=f, k=k, cls=c["name"]))
+        made = []
+        extra = {}
+        for f in c["makers"]:
+            for k in range(len(f["calls"])):
+                ops.append(dict(kind="make", f=f, k=k, obj=nobj, cls=c["name"]))
+                if f["owned"]:
+                    made.append(nobj)
+                else:
+                    made.append(None)
+                # a method call through the returned handle (the library's per-function call
+                # counter continues: this is call number len(calls)+j of that method)
+                m = c["methods"][0]
+                extra[m["fid"]] = extra.get(m["fid"], 0) + 1
+                ops.append(dict(kind="mcall", f=m, k=(len(m["calls"]) + extra[m["fid"]] - 1) % len(m["calls"]),
+                                obj=nobj, cls=c["name"]))
+                nobj += 1
+        for f in c["users"]:
+            for k in range(len(f["calls"])):
+                ops.append(dict(kind="call", f=f, k=k, objs={"obj": objs[(k + 1) % len(objs)]}, cls=c["name"]))
+        for o in objs + [m for m in made if m is not None]:
+            ops.append(dict(kind="del", obj=o, cls=c["name"], fid=c["dtor_fid"]))
+    return ops
+
+
 def expected_stream(lib, front):
+    """Reference model of the whole run."""
     lines = []
-    for site, (f, k) in enumerate(call_plan(lib)):
-        lines.extend(expected_call(f, f["calls"][k], site, front))
+    serial_of = {}     # driver object variable -> library serial
+    nserial = 0
+    borrowed_serial = None
+    live = 0
+    for site, op in enumerate(plan(lib)):
+        kind = op["kind"]
+        if kind == "del":
+            lines += ["C %d" % site, "E %d" % op["fid"], "DEL %d" % serial_of[op["obj"]]]
+            live -= 1
+            continue
+        f, call = op["f"], op["f"]["calls"][op["k"]]
+        ec = expected_call(f, call, site, front, serial_of, op)
+        if kind == "new":
+            nserial += 1
+            live += 1
+            serial_of[op["obj"]] = nserial
+            # C site, E fid, args..., NEW serial
+            ec = ec + ["NEW %d" % nserial]
+        elif kind == "make":
+            if f["owned"]:
+                nserial += 1
+                live += 1
+                serial_of[op["obj"]] = nserial
+                ec = ec + ["NEW %d" % nserial, "O rv o %d" % nserial]
+            else:
+                if borrowed_serial is None:
+                    nserial += 1
+                    live += 1
+                    borrowed_serial = nserial
+                    ec = ec + ["NEW %d" % nserial]
+                serial_of[op["obj"]] = borrowed_serial
+                ec = ec + ["O rv o %d" % borrowed_serial]
+        lines += ec
+    lines.append("LIVE %d" % live)
     return lines
 
 
@@ -418,6 +573,7 @@ void vf_os(int slot, const char *s, int n);
 void vf_oai(int slot, int n, const long long *v);
 void vf_oad(int slot, int n, const double *v);
 void vf_note(const char *s);
+void vf_live_report(void);
 #ifdef __cplusplus
 }
 #endif
@@ -500,6 +656,75 @@ def log_array(T, idx, ptr, n):
     return ["{ long long vf_t[64]; int vf_i; for (vf_i = 0; vf_i < (%s) && vf_i < 64; vf_i++) vf_t[vf_i] = (long long) (%s)[vf_i]; vf_aai(%d, %s, vf_t); }" % (n, ptr, idx, n)]
 
 
+def body_lines(f, this=False):
+    """Statements of a subject function: log, then produce the scripted outputs."""
+    body = ["    static int vf_k = 0;", "    int vf_call = vf_k++;", "    vf_enter(%d);" % f["fid"]]
+    if this:
+        body.append("    vf_this(this->vf_serial);")
+    ncall = max(1, len(f["calls"]))
+    for idx, p in enumerate(f["params"]):
+        row, T, nm = p["row"], p["T"], p["name"]
+        if row == "K1ptr":
+            body.append("    vf_ao(%d, %s->vf_serial);" % (idx, nm))
+        elif row == "K1ref":
+            body.append("    vf_ao(%d, %s.vf_serial);" % (idx, nm))
+        elif p.get("implied_of") or p.get("size_for") or row in ("N1", "B1", "S1c"):
+            body.append("    " + log_scalar(T, idx, nm))
+        elif row in ("N2in", "N2inout", "B1inout"):
+            body.append("    " + log_scalar(T, idx, "*" + nm))
+        elif row == "N2ref":
+            body.append("    " + log_scalar(T, idx, nm))
+        elif row == "S1in":
+            body.append("    vf_as(%d, %s, -1);" % (idx, nm))
+        elif row in ("S3in", "S3val", "S3inout"):
+            body.append("    vf_as(%d, %s.data(), (int) %s.size());" % (idx, nm, nm))
+        elif row in ("N3in", "N3inout"):
+            body += ["    " + l for l in log_array(T, idx, nm, p["companion"])]
+    for idx, p in enumerate(f["params"]):
+        row, T, nm = p["row"], p["T"], p["name"]
+        vals = [c["outputs"].get(nm) for c in f["calls"]]
+        if not vals or all(v is None for v in vals):
+            continue
+        if row in ("N2out", "N2inout", "B1out", "B1inout"):
+            body.append("    { static const %s vf_tab[] = {%s}; *%s = vf_tab[vf_call %% %d]; }"
+                        % (T, ", ".join(c_lit(T, v) for v in vals), nm, ncall))
+        elif row in ("N2ref", "N2refout"):
+            body.append("    { static const %s vf_tab[] = {%s}; %s = vf_tab[vf_call %% %d]; }"
+                        % (T, ", ".join(c_lit(T, v) for v in vals), nm, ncall))
+        elif row == "S1out":
+            body.append("    { static const char *vf_tab[] = {%s}; strcpy(%s, vf_tab[vf_call %% %d]); }"
+                        % (", ".join(c_str(v["text"]) for v in vals), nm, ncall))
+        elif row in ("S3out", "S3inout"):
+            body.append("    { static const char *vf_tab[] = {%s}; %s = vf_tab[vf_call %% %d]; }"
+                        % (", ".join(c_str(v["text"]) for v in vals), nm, ncall))
+        elif row in ("N3inout", "N3out"):
+            flat = [x for v in vals for x in v]
+            offs = []
+            o = 0
+            for v in vals:
+                offs.append(o)
+                o += len(v)
+            body.append("    { static const %s vf_tab[] = {%s}; static const int vf_off[] = {%s}; static const int vf_len[] = {%s}; int vf_j;"
+                        % (T, ", ".join(c_lit(T, x) for x in flat) or "0", ", ".join(map(str, offs)), ", ".join(str(len(v)) for v in vals)))
+            body.append("      for (vf_j = 0; vf_j < vf_len[vf_call %% %d]; vf_j++) %s[vf_j] = vf_tab[vf_off[vf_call %% %d] + vf_j]; }" % (ncall, nm, ncall))
+    r = f["ret"]
+    if r:
+        vals = [c["outputs"]["rv"] for c in f["calls"]]
+        if r["row"] in ("N", "B", "C"):
+            body.append("    { static const %s vf_tab[] = {%s}; return vf_tab[vf_call %% %d]; }"
+                        % (r["T"], ", ".join(c_lit(r["T"], v) for v in vals), ncall))
+        elif r["row"] in ("S1", "S1len"):
+            body.append("    { static const char *vf_tab[] = {%s}; return vf_tab[vf_call %% %d]; }"
+                        % (", ".join(c_str(v["text"]) for v in vals), ncall))
+        elif r["row"] == "S3":
+            body.append("    { static const char *vf_tab[] = {%s}; return std::string(vf_tab[vf_call %% %d]); }"
+                        % (", ".join(c_str(v["text"]) for v in vals), ncall))
+        else:
+            body.append("    { static const std::string vf_tab[] = {%s}; return vf_tab[vf_call %% %d]; }"
+                        % (", ".join("std::string(%s)" % c_str(v["text"]) for v in vals), ncall))
+    return body
+
+
 def subject_sources(lib):
     """-> {filename: text}: header, implementation, support."""
     cxx = lib["language"] == "c++"
@@ -508,71 +733,60 @@ def subject_sources(lib):
         hdr += ["#include <string>", "#include <vector>"]
     else:
         hdr += ["#include <stdbool.h>"]
-    impl = ['#include "%s"' % lib["cheader"], '#include "vf_support.h"', "#include <string.h>"]
+    impl = ['#include "%s"' % lib["cheader"], '#include "vf_support.h"', "#include <string.h>", "#include <stdio.h>"]
+    if cxx:
+        impl.append("""
+static int vf_next_serial = 0;
+static int vf_live_count = 0;
+static int vf_obj_new(void) { ++vf_live_count; ++vf_next_serial; printf("NEW %d\\n", vf_next_serial); fflush(stdout); return vf_next_serial; }
+static void vf_obj_del(int serial) { --vf_live_count; printf("DEL %d\\n", serial); fflush(stdout); }
+static void vf_this(int serial) { printf("T %d\\n", serial); fflush(stdout); }
+static void vf_ao(int idx, int serial) { printf("A %d o %d\\n", idx, serial); fflush(stdout); }
+extern "C" void vf_live_report(void) { printf("LIVE %d\\n", vf_live_count); fflush(stdout); }
+""")
+    else:
+        impl.append('void vf_live_report(void) { printf("LIVE 0\\n"); fflush(stdout); }')
+    for c in lib.get("classes", []):
+        nm = c["name"]
+        hdr.append("class %s {\npublic:" % nm)
+        hdr.append("    int vf_serial;")
+        hdr.append("    %s(int flag, int quiet);   // used by the library itself, not wrapped" % nm)
+        impl.append("%s::%s(int flag, int quiet) { (void) flag; (void) quiet; vf_serial = vf_obj_new(); }" % (nm, nm))
+        for f in c["ctors"]:
+            sig = "%s(%s)" % (nm, ", ".join(p["ctype"] for p in f["params"]))
+            hdr.append("    %s;" % sig)
+            impl.append("%s::%s\n{\n%s\n    vf_serial = vf_obj_new();\n}" % (nm, sig, "\n".join(body_lines(f))))
+        hdr.append("    ~%s();" % nm)
+        impl.append("%s::~%s()\n{\n    vf_enter(%d);\n    vf_obj_del(vf_serial);\n}" % (nm, nm, c["dtor_fid"]))
+        for f in c["methods"]:
+            hdr.append("    %s;" % decl_text_plain(f))
+            r = f["ret"]
+            impl.append("%s %s::%s(%s)%s\n{\n%s\n}" % (r["ctype"] if r else "void", nm, f["name"],
+                                                       ", ".join(p["ctype"] for p in f["params"]),
+                                                       " const" if f.get("const") else "", "\n".join(body_lines(f, this=True))))
+        for f in c["statics"]:
+            hdr.append("    static %s;" % decl_text_plain(f))
+            r = f["ret"]
+            impl.append("%s %s::%s(%s)\n{\n%s\n}" % (r["ctype"] if r else "void", nm, f["name"],
+                                                     ", ".join(p["ctype"] for p in f["params"]), "\n".join(body_lines(f))))
+        hdr.append("};")
+        for f in c["makers"]:
+            sig = "%s *%s(%s)" % (nm, f["name"], ", ".join(p["ctype"] for p in f["params"]))
+            hdr.append(sig + ";")
+            if f["owned"]:
+                impl.append("%s\n{\n%s\n    return new %s(0, 1);\n}" % (sig, "\n".join(body_lines(f)), nm))
+            else:
+                impl.append("%s\n{\n%s\n    static %s *vf_p = NULL;\n    if (vf_p == NULL) vf_p = new %s(0, 1);\n    return vf_p;\n}"
+                            % (sig, "\n".join(body_lines(f)), nm, nm))
+        for f in c["users"]:
+            hdr.append(decl_text_plain(f) + ";")
+            impl.append("%s\n{\n%s\n}" % (decl_text_plain(f), "\n".join(body_lines(f))))
+        hdr.append('extern "C" void vf_oo_%s(int slot, void *p);' % nm)
+        impl.append('extern "C" void vf_oo_%s(int slot, void *p) { if (slot < 0) printf("O rv o %%d\\n", ((%s *) p)->vf_serial); else printf("O %%d o %%d\\n", slot, ((%s *) p)->vf_serial); fflush(stdout); }' % (nm, nm, nm))
     for f in lib["funcs"]:
         proto = decl_text_plain(f)
         hdr.append(proto + ";")
-        body = ["%s\n{" % proto, "    static int vf_k = 0;", "    int vf_call = vf_k++;", "    vf_enter(%d);" % f["fid"]]
-        ncall = len(f["calls"])
-        for idx, p in enumerate(f["params"]):
-            row, T, nm = p["row"], p["T"], p["name"]
-            if p.get("implied_of") or p.get("size_for") or row in ("N1", "B1", "S1c"):
-                body.append("    " + log_scalar(T, idx, nm))
-            elif row in ("N2in", "N2inout", "B1inout"):
-                body.append("    " + log_scalar(T, idx, "*" + nm))
-            elif row == "N2ref":
-                body.append("    " + log_scalar(T, idx, nm))
-            elif row == "S1in":
-                body.append("    vf_as(%d, %s, -1);" % (idx, nm))
-            elif row in ("S3in", "S3val", "S3inout"):
-                body.append("    vf_as(%d, %s.data(), (int) %s.size());" % (idx, nm, nm))
-            elif row in ("N3in", "N3inout"):
-                body += ["    " + l for l in log_array(T, idx, nm, p["companion"])]
-        # scripted outputs
-        for idx, p in enumerate(f["params"]):
-            row, T, nm = p["row"], p["T"], p["name"]
-            vals = [c["outputs"].get(nm) for c in f["calls"]]
-            if all(v is None for v in vals):
-                continue
-            if row in ("N2out", "N2inout", "B1out", "B1inout"):
-                body.append("    { static const %s vf_tab[] = {%s}; *%s = vf_tab[vf_call %% %d]; }"
-                            % (T, ", ".join(c_lit(T, v) for v in vals), nm, ncall))
-            elif row in ("N2ref", "N2refout"):
-                body.append("    { static const %s vf_tab[] = {%s}; %s = vf_tab[vf_call %% %d]; }"
-                            % (T, ", ".join(c_lit(T, v) for v in vals), nm, ncall))
-            elif row == "S1out":
-                body.append("    { static const char *vf_tab[] = {%s}; strcpy(%s, vf_tab[vf_call %% %d]); }"
-                            % (", ".join(c_str(v["text"]) for v in vals), nm, ncall))
-            elif row in ("S3out", "S3inout"):
-                body.append("    { static const char *vf_tab[] = {%s}; %s = vf_tab[vf_call %% %d]; }"
-                            % (", ".join(c_str(v["text"]) for v in vals), nm, ncall))
-            elif row in ("N3inout", "N3out"):
-                flat = [x for v in vals for x in v]
-                offs = []
-                o = 0
-                for v in vals:
-                    offs.append(o)
-                    o += len(v)
-                body.append("    { static const %s vf_tab[] = {%s}; static const int vf_off[] = {%s}; static const int vf_len[] = {%s}; int vf_j;"
-                            % (T, ", ".join(c_lit(T, x) for x in flat) or "0", ", ".join(map(str, offs)), ", ".join(str(len(v)) for v in vals)))
-                body.append("      for (vf_j = 0; vf_j < vf_len[vf_call %% %d]; vf_j++) %s[vf_j] = vf_tab[vf_off[vf_call %% %d] + vf_j]; }" % (ncall, nm, ncall))
-        r = f["ret"]
-        if r:
-            vals = [c["outputs"]["rv"] for c in f["calls"]]
-            if r["row"] in ("N", "B", "C"):
-                body.append("    { static const %s vf_tab[] = {%s}; return vf_tab[vf_call %% %d]; }"
-                            % (r["T"], ", ".join(c_lit(r["T"], v) for v in vals), ncall))
-            elif r["row"] in ("S1", "S1len"):
-                body.append("    { static const char *vf_tab[] = {%s}; return vf_tab[vf_call %% %d]; }"
-                            % (", ".join(c_str(v["text"]) for v in vals), ncall))
-            elif r["row"] == "S3":
-                body.append("    { static const char *vf_tab[] = {%s}; return std::string(vf_tab[vf_call %% %d]); }"
-                            % (", ".join(c_str(v["text"]) for v in vals), ncall))
-            else:
-                body.append("    { static const std::string vf_tab[] = {%s}; return vf_tab[vf_call %% %d]; }"
-                            % (", ".join("std::string(%s)" % c_str(v["text"]) for v in vals), ncall))
-        body.append("}")
-        impl.append("\n".join(body))
+        impl.append("%s\n{\n%s\n}" % (proto, "\n".join(body_lines(f))))
     hdr.append("#endif")
     ext = "cpp" if cxx else "c"
     return {lib["cheader"]: "\n".join(hdr) + "\n", "xlib." + ext: "\n\n".join(impl) + "\n",
